@@ -2,7 +2,7 @@
 import json
 import os
 
-from . import inv, rules_c03 as r3, runner
+from . import inv, rules_c03 as r3, rules_grid as g, runner
 from .ctx import CLOSURE
 from .engine import Budget, Engine, State
 from .model import short
@@ -186,6 +186,8 @@ def translate(ctx, chk, ref):
 
                 def ehook(c, ev, stored=stored):
                     if ev[0] == 'map.insert' and len(ev) > 3 and isinstance(ev[3], StructV) and ev[3].ty.endswith('CharOpts') and c.fr is not None and c.fr.func in scope:
+                        if c.st.vn.get('ins-absent') and g.is_default_char(c.eng, c.st, ev[3])[0]:
+                            return      # an absent cell materialised with the blank it stands for: nothing is drawn
                         d = ev[3].fields.get('data')
                         stored.append(d.known if isinstance(d, StrV) else None)
                 eng.event_hook = ehook
